@@ -22,7 +22,7 @@ CLAIMED = {
          "Held on K generated signatures (0-6 positional-or-keyword parameters, defaults incl. mutable and tensor defaults) and argument supersets as dict and Points: every parameter receives the value stored under its name, defaults apply, missing required names are rejected, partial evaluation returns the value exactly when all required names are bound and otherwise a wrapper equivalent to one full evaluation; originals, user functions and user containers unchanged.",
          "Keyword-only / variadic parameters outside the quantifier; re-wrapping shares the defaults dict (DESIGN 5.1) and is accepted either way.", "DESIGN.md 4 C13"),
  "C19": ("fault_enumeration", "crash-point enumeration: a harness Lightning callback raises SimulatedCrash at every step k, a fresh world resumes from the checkpoint file on disk and trains on; WeightSaveCallback files loaded into freshly built models",
-         "Held for EVERY interruption step k in 1..N-1 for N in 3..5 (quick) / 3..8 (thorough) and check interval c in {1,2,3}, per configuration: resumed state == uninterrupted state (difference exactly 0), every reachable learnable tensor is in every checkpoint, _init/_final files reproduce the model before/after training, _min_loss equals a checked step. The (k, N, c) space per configuration is enumerated completely.",
+         "Held for EVERY interruption step k in 1..N-1 for N in 3..5 (quick) / 3..10 (thorough) and check interval c in {1,2,3}, per configuration: resumed state == uninterrupted state (difference exactly 0), every reachable learnable tensor is in every checkpoint, _init/_final files reproduce the model before/after training, _min_loss equals a checked step. The (k, N, c) space per configuration is enumerated completely.",
          "Torn / partially written checkpoint files are not simulated (the crash is raised between Lightning hooks); CPU only.", "DESIGN.md 4 C19"),
  "C03": ("exploration", "post-condition monitor on every differential operator call: sympy analytic derivative of the generated expression (cross-checked at run time by 4th-order finite differences), row-independence metamorphic monitor",
          "Held on K operator calls over generated expression trees (constant / linear / bilinear / generic dependence templates), 1-3 variables of dimension 1-3, one and two batch axes, both precisions: values, shape, dtype equal the analytic expression row by row; permuting / dropping / replacing other rows never changes a row.",
